@@ -1,7 +1,7 @@
 /-
 C18 — model of `(*Replacer).replace` (replacer.go), transliterated statement by
-statement: cursor `i`, `lastWriteCursor`, `unclosedCount`, the escaped-closer
-inner loop, the four public modes.  Byte strings are `List UInt8`; `Get` is the
+statement: cursor `i`, `lastWriteCursor`, `unclosedCount`, `lastEnd` (the remembered
+closing brace), the escaped-closer inner loop, the four public modes.  Byte strings are `List UInt8`; `Get` is the
 parameter `env`; a `ReplacementFunc` is a parameter `f` acting on the stringified
 value.  Go's slice expression `s[lo:hi]` panics when `lo > hi`; the model keeps
 that as an explicit `panic` outcome (and `Props.lean` proves it is unreachable).
@@ -139,40 +139,47 @@ def escAt (inp : Bytes) (i : Nat) : Bool :=
 /-- `input[i] == phOpen` -/
 def openAt (inp : Bytes) (i : Nat) : Bool := inp[i]? == some phOpen
 
-/-- the `scan` loop from index `i` on; `sb` is the string builder's content.
+/-- "find the end of the placeholder" for the opener at `i`: the closing brace found for the
+    previous opener (`ce`, Go's `lastEnd`; `0` = none yet — a real one is `> i ≥ 0`) is reused
+    while it lies behind `i`, otherwise it is searched for. -/
+def closeAt (inp : Bytes) (i ce : Nat) : Close :=
+  if ce > i then .at ce else findClose inp i
+
+/-- the `scan` loop from index `i` on; `sb` is the string builder's content, `ce` is `lastEnd`.
     Structural recursion on `fuel` (every iteration advances `i`, so `inp.length + 1 - i`
     suffices: `Props.replace_never_runs_out_of_fuel`). -/
-def loop (inp : Bytes) (env : Env) (m : Mode) : (fuel i lwc uc : Nat) → (sb : Bytes) → Res
-  | 0, _, _, _, _ => .fuel
-  | fuel + 1, i, lwc, uc, sb =>
+def loop (inp : Bytes) (env : Env) (m : Mode) : (fuel i lwc uc ce : Nat) → (sb : Bytes) → Res
+  | 0, _, _, _, _, _ => .fuel
+  | fuel + 1, i, lwc, uc, ce, sb =>
   if i < inp.length then
     -- check for escaped braces
     if escAt inp i then
       match slice inp lwc (i - 1) with
       | none => .panic
-      | some s => loop inp env m fuel (i + 1) i uc (sb ++ s)
+      | some s => loop inp env m fuel (i + 1) i uc ce (sb ++ s)
     else if !openAt inp i then
-      loop inp env m fuel (i + 1) lwc uc sb
+      loop inp env m fuel (i + 1) lwc uc ce sb
     else if uc > 100 then
       .tooMany
     else
-      match findClose inp i with
-      | .unclosed => loop inp env m fuel (i + 1) lwc (uc + 1) sb
+      match closeAt inp i ce with
+      | .unclosed => loop inp env m fuel (i + 1) lwc (uc + 1) ce sb
       | .at e =>
+        -- lastEnd = end (a no-op when the cached brace was reused)
         match slice inp lwc i, slice inp (i + 1) e with
         | some pre, some key =>
           -- sb.WriteString(input[lastWriteCursor:i]); val, found := r.Get(key)
           if (env key).isNone ∧ m.errUnknown then .unknown key
           else if (env key).isNone ∧ !m.unknownEmpty then
-            loop inp env m fuel (i + 1) i uc (sb ++ pre)
+            loop inp env m fuel (i + 1) i uc e (sb ++ pre)
           else
             match m.valStr key (env key) with
             | none => .funcErr
             | some valStr =>
               if valStr.isEmpty then
                 if m.errEmpty then .emptyVal key
-                else loop inp env m fuel (e + 1) (e + 1) uc (sb ++ pre ++ m.empty)
-              else loop inp env m fuel (e + 1) (e + 1) uc (sb ++ pre ++ valStr)
+                else loop inp env m fuel (e + 1) (e + 1) uc e (sb ++ pre ++ m.empty)
+              else loop inp env m fuel (e + 1) (e + 1) uc e (sb ++ pre ++ valStr)
         | _, _ => .panic
   else
     match slice inp lwc inp.length with
@@ -182,7 +189,7 @@ def loop (inp : Bytes) (env : Env) (m : Mode) : (fuel i lwc uc : Nat) → (sb : 
 /-- `(*Replacer).replace` -/
 def replace (inp : Bytes) (env : Env) (m : Mode) : Res :=
   if !inp.contains phOpen && !inp.contains phClose then .ok inp
-  else loop inp env m (inp.length + 1) 0 0 0 []
+  else loop inp env m (inp.length + 1) 0 0 0 0 []
 
 /-! The four public entry points (what the harness calls). -/
 
